@@ -20,6 +20,34 @@ import (
 	"verif/harness/internal/stats"
 )
 
+// unmatchedWarning pairs every warning with a distinct error from pool (identity first, then errors.Is: a warning may
+// wrap the node's error) and returns the first warning that finds no partner.
+func unmatchedWarning(warnings []error, pool map[error]int) error {
+	left := map[error]int{}
+	for e, n := range pool {
+		left[e] = n
+	}
+	var rest []error
+	for _, w := range warnings {
+		if left[w] > 0 {
+			left[w]--
+		} else {
+			rest = append(rest, w)
+		}
+	}
+next:
+	for _, w := range rest {
+		for e, n := range left {
+			if n > 0 && e != nil && errors.Is(w, e) {
+				left[e]--
+				continue next
+			}
+		}
+		return w
+	}
+	return nil
+}
+
 func TestMain(m *testing.M) { stats.Main(m, "C02") }
 
 const rule = "rapid: registry history + threshold calls (both kinds, values -2..6, other types, empty type) interleaved with Sends whose per-node outcomes are scripted (pass/replace/drop/fail/fail+event) and whose context is live, pre-cancelled or cancelled by the hook at a drawn protocol point; oracle = reference accounting model (Complete/CompleteSinks/Warnings multisets, completes+warnings = pipelines when live, never invented under cancellation, err iff below a threshold computed from the returned Status, errors.Is(ctx.Err()) when the context was certainly done), threshold map model; non-trivial = outcome vector not all-success with a threshold > 0, or cancel landed on node.returned/status.send; distinct = history descriptor up to that Send"
@@ -122,14 +150,9 @@ func checkSend(x *model.Exec, tm *thrModel, s *bgen.SendStep) (string, bool, []s
 	if !subMS(gotC, obsComplete) {
 		return fmt.Sprintf("Complete() %s reports traversals that did not end successfully (really ended: %s)", fmtMS(gotC), fmtMS(obsComplete)), false, nil
 	}
-	gotW := map[error]int{}
-	for _, w := range st.Warnings {
-		gotW[w]++
-	}
-	for w, n := range gotW {
-		if n > obsErrs[w] {
-			return fmt.Sprintf("Warnings contains an error (%T) which no node returned during this Send, or more often than it was returned", w), false, nil
-		}
+	// every warning is - or carries, for errors.Is - a distinct error a node returned during this Send
+	if w := unmatchedWarning(st.Warnings, obsErrs); w != nil {
+		return fmt.Sprintf("Warnings contains an error (%T) which no node returned during this Send, or more often than it was returned", w), false, nil
 	}
 	// complete-sinks = exactly the sink entries of complete
 	wantS := map[string]int{}
@@ -159,13 +182,15 @@ func checkSend(x *model.Exec, tm *thrModel, s *bgen.SendStep) (string, bool, []s
 		if !eqMS(gotC, wantC) {
 			return fmt.Sprintf("live context: Complete() %s, expected %s", fmtMS(gotC), fmtMS(wantC)), false, nil
 		}
-		if len(gotW) != len(wantW) || len(st.Warnings) != len(exp)-len(st.Complete()) {
+		nWant := 0
+		for _, n := range wantW {
+			nWant += n
+		}
+		if len(st.Warnings) != nWant || len(st.Warnings) != len(exp)-len(st.Complete()) {
 			return fmt.Sprintf("live context: %d warnings + %d completes for %d pipelines", len(st.Warnings), len(st.Complete()), len(exp)), false, nil
 		}
-		for w, n := range wantW {
-			if gotW[w] != n {
-				return fmt.Sprintf("live context: a warning of type %T returned by a node is reported %d time(s), expected %d", w, gotW[w], n), false, nil
-			}
+		if w := unmatchedWarning(st.Warnings, wantW); w != nil {
+			return fmt.Sprintf("live context: a warning of type %T does not correspond to the error of a pipeline that ended in a failing node (each such error is reported once)", w), false, nil
 		}
 	} else {
 		classes = append(classes, "cancelled")
